@@ -406,6 +406,7 @@ func (ge *genEnv) compileAll(cs []*genCase) error {
 func compileErrClass(msg string) string {
 	table := []struct{ sub, class string }{
 		{"imported and not used", "unused-import"},
+		{"function main is undeclared in the main package", "package-main"},
 		{"invalid recursive type", "recursive-type"},
 		{"field and method with the same name", "field-method-clash"},
 		{"already declared", "method-redeclared"},
